@@ -27,6 +27,8 @@ fn collect_deps(
 	resolver: &FileImportResolver,
 	source: &SourcePath,
 	deps: &mut BTreeSet<String>,
+	// Files already visited as code: a file may be found as a text import first
+	scanned: &mut BTreeSet<String>,
 ) -> Result<(), String> {
 	let contents = resolver
 		.load_file_contents(source)
@@ -49,8 +51,9 @@ fn collect_deps(
 			.resolve_from(source, &&*path)
 			.map_err(|e| format!("{e}"))?;
 		let path_str = format!("{resolved}");
-		if deps.insert(path_str) && expression {
-			collect_deps(resolver, &resolved, deps)?;
+		deps.insert(path_str.clone());
+		if expression && scanned.insert(path_str) {
+			collect_deps(resolver, &resolved, deps, scanned)?;
 		}
 	}
 
@@ -69,7 +72,9 @@ fn main() {
 		});
 
 	let mut deps = BTreeSet::new();
-	if let Err(e) = collect_deps(&resolver, &source, &mut deps) {
+	let mut scanned = BTreeSet::new();
+	scanned.insert(format!("{source}"));
+	if let Err(e) = collect_deps(&resolver, &source, &mut deps, &mut scanned) {
 		eprintln!("{e}");
 		exit(1);
 	}
